@@ -34,9 +34,9 @@ CHECKS = {
                   "text and tail policy blocks up to renaming, loop-shape rules, attribute-split guard evaluated on plain/Clark names, "
                   "reserved-namespace constant, regex-AST check of the blank-only test; the clean-mode policy compared in guarded-value form (path "
                   "conditions x final symbolic value, control-flow shape abstracted); memo-key coverage on the import slice; parser-option whitelist",
-        text="Partial and the thinnest claim: field provenance, raw identity, text/tail sibling agreement, child coverage/order, "
-             "attribute split and the reserved xml: prefix are decided; lxml's parsing and the whitespace policy on all strings are not.",
-        note="import-export-import stability is not decided",
+        text="Partial: field provenance, raw identity, text/tail sibling agreement, child coverage/order, attribute split and the reserved xml: prefix are "
+             "decided structurally, the element-to-node conversion per class of element by folding; lxml's parsing and the whitespace policy on every string are not.",
+        note="import-export-import stability is decided on seven folded documents only",
         ref="DESIGN.md section 3, C08"),
     "C06": dict(
         technique="positional layout extraction (writer key sequence vs reader (index, key) pairs), field-coverage set comparison with "
@@ -171,6 +171,8 @@ FOLD = {
            "metadata occupancy guard evaluated for 0..3 children",
     "C06": "to_json -> from_json, the legacy codec and legacy -> converter -> current reader folded over a catalogue of trees (fields None / empty / filled, nesting, shared maps)",
     "C07": "both exporters folded over abstract trees and the folded text read back by a small tag reader (balanced, same names / attributes / texts / tails / nesting)",
+    "C08": "_process_element folded over abstract lxml elements, one per class the whitespace policy and the attribute / namespace / comment handling distinguish (318 verdicts); "
+           "import -> export -> import folded on seven documents, the exported text read back by the tag reader",
     "C09": "the eight queries folded over every position class of a name and compared by identity with the ordered-tree model; add / remove / replace / shift / clear folded on the "
            "child list (a, b, a, c, a) against the ordered-list model",
     "C11": "every read-only entry point the folder can follow folded on 24 small documents with the whole state (fields, container objects, links, registry) frozen before and compared after",
@@ -202,7 +204,7 @@ def build():
             "level_note": c["note"],
             "technique": c["technique"] + (("; constant folding of whole pure functions over finitely many classes of abstract trees: " + FOLD[pid]) if pid in FOLD else "")
                          + ("; a shape rule whose claim this fold decides is reported only when the fold is incomplete or reports something itself (check.settle)"
-                            if pid in ("C09", "C13", "C16", "C18", "C19") else ""),
+                            if pid in ("C08", "C09", "C13", "C16", "C18", "C19") else ""),
         })
     claimed = {c["property_id"] for c in checks}
     na = [{"property_id": k, "reason": v} for k, v in sorted(NA.items())]
